@@ -144,6 +144,31 @@ func (e *enc) callCommon(b *ssa.BasicBlock, ins ssa.Instruction, cc *ssa.CallCom
 			e.siteExtra = nil
 		}
 		e.addI("safe", "nil-func", ins, R, fmt.Sprintf("(not (= %s 0))", fv))
+		if sig, ok := cc.Value.Type().Underlying().(*types.Signature); ok && e.f.Pkg != nil {
+			// a value of a named function type under contract (or of the identical unnamed signature)
+			var keys []string
+			for k := range e.w.CS.FuncTypes {
+				keys = append(keys, k)
+			}
+			sort.Strings(keys)
+			for _, k := range keys {
+				parts := strings.SplitN(k, ".", 2)
+				p := e.w.TPkgs[parts[0]]
+				if p == nil {
+					continue
+				}
+				tn, ok := p.Scope().Lookup(parts[1]).(*types.TypeName)
+				if !ok {
+					continue
+				}
+				if nsig, ok := tn.Type().Underlying().(*types.Signature); ok && types.Identical(nsig, sig) {
+					fc := e.w.CS.FuncTypes[k]
+					fc.Used = true
+					e.applyContract(ins, fc, "functype:"+k, nsig, "", nil, args, cc.Args, res, R)
+					return
+				}
+			}
+		}
 		havocRes()
 		e.callHook(ins, "", nil, R)
 		e.havocByEffects(ins)
@@ -934,6 +959,11 @@ func (e *enc) siteAsserts(ins ssa.Instruction, site string, sig *types.Signature
 		if sc.Kind == "assume" {
 			e.assumeAt(R, t)
 			e.assumptions[fmt.Sprintf("assume %s in %s", sc.Label, e.key)] = true
+			continue
+		}
+		if sc.Kind == "finding" {
+			e.addI("finding", sc.Label, ins, R, t)
+			e.assumeAt(R, t)
 			continue
 		}
 		e.addI("assert", sc.Label, ins, R, t)
